@@ -149,8 +149,12 @@ def msgVerdict (c : Cfg) (from_ : List Addr) (typ : Nat) (impl : String) : Strin
       if tg == "-" then none else
       match parseAP tg, parseAddr v with
       | some a, some v =>
-        if inMyNets c a.addr then some "addr-punch-inside-overlay"
-        else if !c.ral.allow v a.addr then some "addr-punch-denied" else none
+        -- judged on what the socket layer will dial: `udp.writeSockaddr` unmaps the destination
+        let u := a.addr.unmap
+        if inMyNets c u || !c.ral.allow v u then
+          some (if a.addr.is4in6 then "addr-mapped-v6-entry-bypasses-filter"
+                else if inMyNets c u then "addr-punch-inside-overlay" else "addr-punch-denied")
+        else none
       | _, _ => some "addr-punch-unparsable"
     | _ => some "addr-punch-unparsable"
   match bad with
@@ -286,10 +290,19 @@ def step (s : State) (args : List String) (impl : String) : State × Out :=
                 match parseList parseAP impl with
                 | none => "bad addr-candidates-unparsable"
                 | some l =>
-                  if l.any (fun a => rl.badRemotes.contains a) then "bad addr-candidate-blocked"
-                  else if l.any (fun a => inMyNets c a.addr) then "bad addr-candidate-inside-overlay"
-                  else if l.any (fun a => !AllowList.allow c.ral.allowList a.addr) then "bad addr-candidate-denied"
-                  else "ok"
+                  -- every candidate is judged after unmapping (what the socket layer will actually dial): a 4-in-6
+                  -- entry that survives only because the filters saw it as IPv6 is its own class
+                  let badOne (a : AP) : Option String :=
+                    let u := a.out
+                    let cls (base : String) : String :=
+                      if a.addr.is4in6 then "addr-mapped-v6-entry-bypasses-filter" else base
+                    if rl.badRemotes.contains u then some (cls "addr-candidate-blocked")
+                    else if inMyNets c u.addr then some (cls "addr-candidate-inside-overlay")
+                    else if !AllowList.allow c.ral.allowList u.addr then some (cls "addr-candidate-denied")
+                    else none
+                  match l.filterMap badOne with
+                  | [] => "ok"
+                  | b :: _ => "bad " ++ b
               let out := showList showAP rl'.addrs
               let s2 : State := { s with lh := s.lh.setList id rl' }
               (s2, { model := out, verdict := verdict, tag := if out == "-" then "addrs:empty" else "addrs" })
